@@ -21,8 +21,7 @@ V_HARNESS {
   struct String* out = new_raw(String);
   int pos0 = 0;
 #ifdef WITH_PREFIX
-  V_ASSUME(IN.prefix != 0 && IN.prefix != '%');
-  { char pf[2] = { (char)IN.prefix, 0 }; pos0 = print_to(out, 0, pf); V_ASSERT(pos0 == 1, "one prefix character written"); }
+  pos0 = print_to(out, 0, "#"); V_ASSERT(pos0 == 1, "one prefix character written");
 #endif
   int p1 = show_to($S((char*)IN.s), out, pos0);
   V_WITNESS("shown");
